@@ -3,7 +3,7 @@
 (* C17 as a state machine.  A patch-set document is built one patch at a   *)
 (* time, handed to the constructor, and then queried once:                  *)
 (*                                                                         *)
-(*   Register(name, values)   one more entry of spec['patches']; both      *)
+(*   Register(name, values, empty)  one more entry of spec['patches']; both *)
 (*                            layers process it (definition: two maps;     *)
 (*                            implementation: one loop iteration of        *)
 (*                            PatchSet.__init__ on the single dictionary)  *)
@@ -176,9 +176,11 @@ Init == /\ nl \in LabelCounts /\ dig \in DigestCfgs
         /\ doc = <<>> /\ phase = "build" /\ def = DefInit /\ impl = ImplInitWith(SharedBookkeeping)
         /\ q = NoQ /\ dres = NoRes /\ ires = NoRes /\ wsIn = Null
 
-Register(name, values) ==
-  /\ phase = "build" /\ Len(doc) < MaxPatches
-  /\ LET p == [name |-> name, values |-> values, ops |-> DecoyOps(Len(doc) + 1)] IN
+\* empty: the patch carries an EMPTY operation list ("patch": [] is schema-valid; such a patch object is falsy in Python).  Only the
+\* first patch of a document may be empty (keeps the state space small; a later duplicate of it is what matters)
+Register(name, values, empty) ==
+  /\ phase = "build" /\ Len(doc) < MaxPatches /\ (empty => Len(doc) = 0)
+  /\ LET p == [name |-> name, values |-> values, ops |-> IF empty THEN <<>> ELSE DecoyOps(Len(doc) + 1)] IN
      /\ doc' = Append(doc, p)
      /\ def' = DefRegister(def, p, nl)
      /\ impl' = ImplRegister(impl, p, nl)
@@ -240,7 +242,7 @@ Reapply ==
   /\ ires' = IF impl.status = "ok" THEN ImplApply(impl, Digests, Recorded, wsIn, q.key, TargetOps) ELSE NoObject
   /\ UNCHANGED <<nl, dig, doc, def, impl, q, wsIn>>
 
-RegisterAny == phase = "build" /\ \E i \in DOMAIN NameSeq : \E t \in RightTuples(nl) \cup WrongTuples(nl) : Register(NameSeq[i], t)
+RegisterAny == phase = "build" /\ \E i \in DOMAIN NameSeq : \E t \in RightTuples(nl) \cup WrongTuples(nl) : \E e \in BOOLEAN : Register(NameSeq[i], t, e)
 LookupAny   == phase = "sealed" /\ DoLookup /\ \E k \in LookupKeys : Lookup(k)
 VerifyAny   == phase = "sealed" /\ DoVerify /\ \E vd \in VariantsW0 : Verify(vd)
 ApplyAny    == phase = "sealed" /\ DoApply /\ def.status = "ok" /\
